@@ -75,8 +75,26 @@ ProgBad(r) ==
                 : i \in DOMAIN r.ctx }
         ELSE {})
 
-Explained(kind) ==
+\* an intersection one of whose members is a reference to a named object type (anywhere in the program)
+RECURSIVE NamedInterMember(_, _, _)
+NamedInterMember(T, env, seen) ==
+  CASE T.t = "inter" -> (\E i \in DOMAIN T.ms : T.ms[i].t = "ref" /\ \E b \in Branches(T.ms[i], env) : b.t = "obj")
+                        \/ (\E i \in DOMAIN T.ms : NamedInterMember(T.ms[i], env, seen))
+    [] T.t = "union" -> \E i \in DOMAIN T.ms : NamedInterMember(T.ms[i], env, seen)
+    [] T.t = "arr"   -> NamedInterMember(T.e, env, seen)
+    [] T.t = "tuple" -> \E i \in DOMAIN (T.es \o T.r) : NamedInterMember((T.es \o T.r)[i], env, seen)
+    [] T.t = "obj"   -> (\E i \in DOMAIN T.ps : NamedInterMember(T.ps[i].ty, env, seen)) \/ (\E i \in DOMAIN T.ix : NamedInterMember(T.ix[i].vt, env, seen))
+    [] T.t = "ref"   -> T.n \notin seen /\ NamedInterMember(Lookup(env, T.n), env, seen \cup {T.n})
+    [] T.t = "deco"  -> NamedInterMember(T.a, env, seen)
+    [] OTHER -> FALSE
+
+\* Known deviation "allOfClosedRefs": printed into a definitions context, an intersection with a named object member is an
+\* allOf over $refs to closed definitions (additionalProperties: false), which forbid each other's properties; the flat
+\* printing merges the members and is not affected.
+Explained(kind, r, where) ==
   IF kind = "anyOf-empty" /\ "neverAnyOfEmpty" \in Open THEN "neverAnyOfEmpty"
+  ELSE IF kind = "exact-member-is-schema-invalid" /\ where # "flat" /\ "allOfClosedRefs" \in Open /\ NamedInterMember(r.ty, r.env, {})
+  THEN "allOfClosedRefs"
   ELSE "NEW"
 
 Observe ==
@@ -84,7 +102,7 @@ Observe ==
   /\ LET r == Rec[l] IN
      /\ r.ev = "prog"
      /\ bad' = IF r.outcome = "code" /\ r.load = "ok"
-               THEN { [line |-> l, id |-> r.id, where |-> b.where, kind |-> b.kind, doc |-> b.doc, class |-> Explained(b.kind)]
+               THEN { [line |-> l, id |-> r.id, where |-> b.where, kind |-> b.kind, doc |-> b.doc, class |-> Explained(b.kind, r, b.where)]
                       : b \in ProgBad(r) }
                ELSE {}
   /\ l' = l + 1
